@@ -727,7 +727,7 @@ class Unit:
                 vac = ""
                 if self.vacuity and "novac" not in opts:
                     vid = f"{path}#loop{k}"
-                    vac = f" if crate::vac_choice({len(self.vac_ids)}) {{ assert(false); /*VAC:{vid}*/ }} "
+                    vac = (f" if crate::vac_choice({len(self.vac_ids)}) {{ assert(false); /*VAC:{vid}*/ }} " if "loop_isolation(false)" in opts.get("attr", "") else f" assert(false); /*VAC:{vid}*/ ")
                     self.vac_ids.append(vid)
                     self.vac_files[vid] = relfile
                 r4n = opts.get("r4n")
@@ -850,7 +850,7 @@ class Unit:
             vac = ""
             if self.vacuity and "novac" not in opts:
                 vid = f"{path}#entry"
-                vac = f" if crate::vac_choice({len(self.vac_ids)}) {{ assert(false); /*VAC:{vid}*/ }} "
+                vac = (f" if crate::vac_choice({len(self.vac_ids)}) {{ assert(false); /*VAC:{vid}*/ }} " if "loop_isolation(false)" in opts.get("attr", "") else f" assert(false); /*VAC:{vid}*/ ")
                 self.vac_ids.append(vid)
                 self.vac_files[vid] = relfile
             if entry.strip() or vac or r19 or "r21" in opts:
@@ -1080,7 +1080,7 @@ class Unit:
                 pre = "".join(f" let mut {nm} = {nm}; " for nm in muts)
                 if self.vacuity and "novac" not in opts:
                     vid = f"{hpath}#entry"
-                    pre += f" proof {{ if crate::vac_choice({len(self.vac_ids)}) {{ assert(false); /*VAC:{vid}*/ }} }} "
+                    pre += f" proof {{ assert(false); /*VAC:{vid}*/ }} "
                     self.vac_ids.append(vid)
                     self.vac_files[vid] = relfile
                 tail = split_hint(endh) if endh.strip() else ""
